@@ -44,7 +44,7 @@ Put(f, k, v) == [x \in DOMAIN f \cup {k} |-> IF x = k THEN v ELSE f[x]]
 \* f without key k
 Drop(f, k) == [x \in DOMAIN f \ {k} |-> f[x]]
 \* f restricted to keys in S
-Restrict(f, S) == [x \in DOMAIN f \cap S |-> f[x]]
+RestrictTo(f, S) == [x \in DOMAIN f \cap S |-> f[x]]
 \* g overrides f
 Merge(f, g) == [x \in DOMAIN f \cup DOMAIN g |-> IF x \in DOMAIN g THEN g[x] ELSE f[x]]
 
